@@ -154,6 +154,21 @@ def range_index_proved(f, x):
         return False
     lo = 0 if rng[1] is None else _cval(rng[1])
     hi = _cval(rng[2]) if rng[2] is not None else None
+    if lo == 0 and hi is None and rng[2] is not None and rng[0] == "excl":
+        # `arr[0..i]` where arr: [_; N] and i is the variable of an enclosing `for i in 0..N`
+        hv = peel_block(peel(rng[2]))
+        aty = (peel(x["args"][0]).get("ty") or "")
+        m = re.search(r"; (\w+)\]$", aty.strip("&mut ").strip())
+        if hv.get("k") == "Var" and m:
+            for y in walk(f["body"]):
+                if y.get("k") == "For" and y["pat"].get("k") == "Bind" and y["pat"]["v"] == hv["v"] and any(z is x for z in walk(y["body"])):
+                    r2 = _range_of(y["iter"])
+                    if r2 and r2[0] == "excl" and r2[2] is not None:
+                        e2 = peel_block(peel(r2[2]))
+                        tok = e2.get("name", e2.get("v")) if e2.get("k") == "ConstParam" else (str(e2.get("int")) if e2.get("k") == "Lit" else None)
+                        if tok == m.group(1):
+                            return True
+        return False
     if lo is None or hi is None or lo > hi:
         return False
     need = hi + (1 if rng[0] == "incl" else 0)
